@@ -4,6 +4,7 @@
 package hasher
 
 import (
+	"reflect"
 	"unsafe"
 
 	"github.com/zeebo/xxh3"
@@ -23,6 +24,12 @@ func NewHasher[K comparable](stringKeyFunc func(K) string) *Hasher[K] {
 		h.kstr = true
 	default:
 		h.ksize = int(unsafe.Sizeof(k))
+	}
+	// A defined string type (type ID string) does not match the case above: without this
+	// its (pointer, length) header would be hashed, so equal strings with different
+	// backing arrays would land in different shards.
+	if !h.kstr && reflect.TypeOf(&k).Elem().Kind() == reflect.String {
+		h.kstr = true
 	}
 	return h
 }
